@@ -41,6 +41,7 @@ Corollary C12_orientation_free_with_sign_factor :
 Proof.
   intros. rewrite ff_reverse. unfold cscale, copp; simpl. f_equal; ring.
 Qed.
+Print Assumptions C12_orientation_free_with_sign_factor.
 
 
 (* level 0: int_0^1 exp(i (al + t be)) dt = sinc(be/2) exp(i (al + be/2)), for every al, be (be = 0 included) *)
